@@ -392,7 +392,10 @@ def ini_typed(text):
     body = s[1:].strip() if s[:1] in "+-" and s[:1] else s
     digits = body.replace(".", "0", 1) if body.count(".") == 1 else body
     if digits and digits.isnumeric():
-        return round(float(s), 7) if "." in s else int(s)
+        try:
+            return round(float(s), 7) if "." in s else int(s)
+        except ValueError:
+            pass  # looks numeric, is not a number literal: stays text (fix C17-f)
     if len(s) >= 2 and s[0] == s[-1] and s[0] in "\"'":
         return s[1:-1]
     return s
@@ -448,7 +451,7 @@ def gen_ini(rng):
         elif t == 1:
             v = rng.choice([1.5, -0.25, 3.14159265358979, 2.0])
         elif t == 2:
-            v = rng.choice(["12", " 12 ", "+5", "-7", "1.50", "1.2.3", ".5", "5.", "-", "1e3"])
+            v = rng.choice(["12", " 12 ", "+5", "-7", "1.50", "1.2.3", ".5", "5.", "-", "1e3", ".", "- 5", "+ 7", "-.", "\u00b2", "\u0663"])
         elif t == 3:
             v = rng.choice(['"quoted"', "'single'", '" sp "', '"', "'a\"", '""'])
         elif t == 4:
@@ -726,7 +729,7 @@ def run(ctx):
             inis.append({"m": m, "eol": rng.choice(["\n", "\r\n"])})
     ctx.evaluate("ini", inis, check_ini, nontrivial=lambda c: len(c["m"]) > 0)
     ctx.extra["assumptions"] = [
-        "the model follows the code with fix patches C17-a, C17-b, C17-c, C17-d applied",
+        "the model follows the code with fix patches C17-a, C17-b, C17-c, C17-d applied (C17-f concerns parse_ini, which has no model)",
         "escape character: None/'' or a single character (a longer escape_character is outside the model)",
         "unescape = UTF-8 encoding followed by CPython 3.12's unicode_escape decoder, hand-modelled (\\N{...} and lone surrogates: unsupported); validated by stream esc.unesc",
         "str.split(sep, maxsplit) is hand-modelled (splitAux) and validated by the esc.split streams with escape None",
